@@ -896,7 +896,42 @@ def call(pe, name, args, kwargs, node):
       except PyRaise as e:
         # this arm rejects the configuration; the other may still be valid
         return Tensor(("sym", "RAISES<%s>" % e.exc_name), None)
-    va, vb = run_arm(a), run_arm(b)
+    # each arm starts from the state before the conditional; attributes
+    # the arms leave different become phase-dependent values
+    from .pe import _MISSING
+    def run_logged(f):
+      saved, pe.arm_log = pe.arm_log, {}
+      try:
+        v = run_arm(f)
+      finally:
+        log, pe.arm_log = pe.arm_log, saved
+      post = {}
+      for k, (o, n, old) in log.items():
+        post[k] = o.attrs.get(n, _MISSING)
+        if old is _MISSING:
+          o.attrs.pop(n, None)
+        else:
+          o.attrs[n] = old
+      return v, log, post
+    va, log_a, post_a = run_logged(a)
+    vb, log_b, post_b = run_logged(b)
+    for k in list(log_a) + [k for k in log_b if k not in log_a]:
+      o, n, old = log_a[k] if k in log_a else log_b[k]
+      xa = post_a.get(k, old)
+      xb = post_b.get(k, old)
+      if xb is _MISSING:
+        new = xa
+      elif xa is _MISSING or xa is xb:
+        new = xb
+      else:
+        new = xb
+        if (isinstance(xa, Tensor) or is_num(xa)) and \
+           (isinstance(xb, Tensor) or is_num(xb)):
+          ta, tb = pe.as_term(xa), pe.as_term(xb)
+          if ta != tb:
+            new = T(pe, ("phase", ta, tb), shape_of(xa, xb))
+      if new is not _MISSING:
+        pe.setattr(o, n, new)
     return T(pe, ("phase", pe.as_term(va), pe.as_term(vb)),
              shape_of(va, vb))
   if name == "tf.while_loop":
